@@ -36,6 +36,9 @@ fn inputs2() -> Vec<Vec<i64>> {
 
 pub struct FunCfg {
     pub thorough: bool,
+    /// node bound of FUN-S (0 = the tier's default: 5 quick, 6 thorough); the full alphabet is used
+    /// from 6 on
+    pub small_max: usize,
     /// include the programs with effects in unsequenced positions (for C03 only)
     pub with_unsequenced: bool,
 }
@@ -59,9 +62,9 @@ pub fn all_fun_families(cfg: &FunCfg, sink: &mut FunSink) {
 
 // ---- FUN-S: every well-typed main body up to a size bound ---------------------------------------
 pub fn fam_small(cfg: &FunCfg, sink: &mut FunSink) {
-    let max = if cfg.thorough { 6 } else { 5 };
+    let max = if cfg.small_max > 0 { cfg.small_max } else if cfg.thorough { 6 } else { 5 };
     let mut alpha = Alphabet::small();
-    if !cfg.thorough {
+    if max < 6 {
         alpha.lits = vec![0, 2];
         alpha.ops = vec!["-", "*"];
     }
